@@ -50,6 +50,8 @@ OInit == [cfg |-> [ka |-> 0], opened |-> FALSE, now |-> 0,
           reqs |-> Empty, order |-> <<>>, apps |-> Empty, wire |-> Empty, acc |-> Empty,
           accFirst |-> Empty,
           wireErrs |-> 0, loopErrs |-> 0, excLogs |-> 0, goaway |-> 0,
+          cwin |-> 65535, initwin |-> 65535, swin |-> Empty, illegal |-> FALSE, unusual |-> {},
+          held |-> 0, maxHeld |-> 0, spins |-> 0,
           lastByteAt |-> 0, nstarted |-> 0, startOrder |-> <<>>,
           endOrder |-> <<>>, n |-> 0]
 
@@ -120,8 +122,14 @@ OStepWire(o, ev) ==
                                                    !.hdrs = ev.headers, !.framing = ev.framing,
                                                    !.cl = ev.cl, !.close = ev.close])]
       [] ev.kind = "info" -> [o EXCEPT !.wire = Put(@, a, [w EXCEPT !.infos = @ + 1])]
-      [] ev.kind = "data" -> [o EXCEPT !.wire = Put(@, a, [w EXCEPT !.got = @ + ev.len,
-                                                                    !.bad = IF ev.match /\ ev.off = w.got THEN @ ELSE @ + 1])]
+      [] ev.kind = "data" ->
+            LET o1 == [o EXCEPT !.wire = Put(@, a, [w EXCEPT !.got = @ + ev.len,
+                                                             !.bad = IF ev.match /\ ev.off = w.got THEN @ ELSE @ + 1])]
+            IN IF Has(ev, "flow")
+               THEN [o1 EXCEPT !.cwin = @ - ev.flow, !.swin = Put(@, a, Get(o.swin, a, o.initwin) - ev.flow)]
+               ELSE o1
+      [] ev.kind = "frame" ->      \* DATA frame of a tunnelled (websocket) stream
+            [o EXCEPT !.cwin = @ - ev.flow, !.swin = Put(@, a, Get(o.swin, a, o.initwin) - ev.flow)]
       [] ev.kind = "end" -> [o EXCEPT !.wire = Put(@, a, [w EXCEPT !.ends = @ + 1, !.endAt = o.now]),
                                       !.endOrder = Append(@, a)]
       [] ev.kind = "trailers" -> [o EXCEPT !.wire = Put(@, a, [w EXCEPT !.trailers = @ + 1])]
@@ -156,6 +164,21 @@ OStep(o0, ev) ==
       [] ev.e = "final" -> [o EXCEPT !.final = TRUE]
       [] ev.e = "tick" -> [o EXCEPT !.now = Max(@, ev.to)]
       [] ev.e = "c_rst" -> [o EXCEPT !.reqs = Put(@, ev.app, [Req(o, ev.app) EXCEPT !.rst = TRUE])]
+      [] ev.e = "c_frame" ->
+            CASE ev.kind = "wupd" ->
+                    IF ev.stream = 0 THEN [o EXCEPT !.cwin = @ + ev.n]
+                    ELSE [o EXCEPT !.swin = Put(@, ev.app, Get(o.swin, ev.app, o.initwin) + ev.n)]
+              [] ev.kind = "settings" ->
+                    LET iw == {v \in 1..Len(ev.values) : ev.values[v][1] = 4} IN
+                    IF iw = {} THEN o
+                    ELSE LET nv == ev.values[CHOOSE v \in iw : TRUE][2]
+                             d == nv - o.initwin IN
+                         [o EXCEPT !.initwin = nv,
+                                   !.swin = [a \in DOMAIN o.swin |-> o.swin[a] + d]]
+              [] ev.kind = "raw" ->
+                    [o EXCEPT !.illegal = @ \/ ~ev.legal,
+                              !.unusual = IF ev.unusual # "" THEN @ \cup {ev.unusual} ELSE @]
+              [] OTHER -> o
       [] ev.e \in {"app_start", "app_call", "app_recv", "app_ret", "app_done"} -> OStepApp(o, ev)
       [] ev.e = "wire" -> OStepWire(o, ev)
       [] ev.e = "t_close" -> [o EXCEPT !.closedAt = IF @ < 0 THEN ev.now ELSE @]
@@ -167,10 +190,13 @@ OStep(o0, ev) ==
                                                  !.accFirst = IF ev.app \in DOMAIN @ THEN @ ELSE Put(@, ev.app, ev.status)]
             ELSE IF ev.kind = "exception" THEN [o EXCEPT !.excLogs = @ + 1]
             ELSE o
-      [] ev.e = "quiescent" -> [o EXCEPT !.now = Max(@, ev.now)]
+      [] ev.e = "quiescent" -> [o EXCEPT !.now = Max(@, ev.now), !.held = ev.held + ev.tbuf,
+                                         !.maxHeld = Max(@, ev.held + ev.tbuf)]
+      [] ev.e = "spin" -> [o EXCEPT !.spins = @ + 1]
       [] OTHER -> o
 
 (* ---- vocabulary shared by the monitors --------------------------------- *)
+SWin(o, a) == Get(o.swin, a, o.initwin)
 ClientPresent(o) == ~o.gone /\ ~o.tfail /\ ~o.reset
 ServerOpen(o)    == o.closedAt < 0
 Connected(o)     == ClientPresent(o) /\ ServerOpen(o)
